@@ -95,6 +95,7 @@ type FuncCtx struct {
 	loopDepth int
 	permitBareRange bool
 	ceUnroll  int
+	defs      map[string]string
 	inputArrs []string
 }
 
@@ -186,6 +187,10 @@ func (st *State) define(prefix, sort, term string) string {
 	c := st.fc.fresh(prefix, sort)
 	f := sEq(c, term)
 	defFacts[f] = true
+	if st.fc.defs == nil {
+		st.fc.defs = map[string]string{}
+	}
+	st.fc.defs[c] = term
 	st.facts = st.facts.push(f) // definitions are unconditional
 	return c
 }
